@@ -557,6 +557,47 @@ fn name_length_job(ctx: &Ctx, job: usize, jobs: usize) -> Stats {
     st
 }
 
+/// Formulas with {references} whose definitions are supplied through the API (as syntax), with a
+/// reference used outside a fixed point, inside one, or both; evaluated two or three times with a
+/// re-definition in between. Evaluation returns or fails with an error value — it does not panic.
+fn definitions_job(ctx: &Ctx, job: usize, iters: u64) -> Stats {
+    use rsbdd::parser::ReferenceContents;
+    let mut st = Stats::new();
+    let mut rng = Rng::stream(ctx.seed, "C12.definitions", job as u64);
+    let mains = ["{R} & gfp X # (X & {R})", "(lfp X # X | {R}) | {S}", "{R} | {S}", "gfp X # (X & ({R} | {S}))", "exists a # {R} & (mu X # (X | {S}) & {R})", "[{R}, {S}, a] >= 2", "if {R} then (nu X # {S} & X) else {R}", "-{R} ^ (lfp Y # Y | (gfp X # X & {R}))"];
+    let defs = ["a | b", "a & -b", "true", "false", "exists b # b & a", "[a, b] = 1", "{S} | a", "lfp Z # Z | b"];
+    for _ in 0..iters {
+        let main = *rng.pick(&mains);
+        let script: Vec<(&str, &str)> = (0..2 + rng.usize(3)).map(|i| (if i % 2 == 0 { "R" } else { "S" }, *rng.pick(&defs))).collect();
+        st.evals += 1;
+        st.bump("formulas_with_api_definitions");
+        let case = json!({"kind": "definitions", "main": main, "script": script.iter().map(|(n, d)| format!("{} := {}", n, d)).collect::<Vec<_>>()});
+        util::budget(20_000_000, 2_000);
+        let script2 = script.clone();
+        let r = guarded(move || -> std::io::Result<()> {
+            let pf = ParsedFormula::new(&mut std::io::BufReader::new(main.as_bytes()), None)?;
+            for (name, text) in &script2 {
+                if *name == "S" && text.contains("{S}") {
+                    continue; // (a definition that refers to itself never ends: not a formula whose evaluation converges)
+                }
+                let sub = ParsedFormula::new_with_env(std::rc::Rc::clone(&pf.env), &mut std::io::BufReader::new(text.as_bytes()), None)?;
+                pf.define(name, ReferenceContents::Syntax(sub.bdd.clone()));
+                let _ = pf.eval();
+                let _ = pf.eval();
+            }
+            Ok(())
+        });
+        match r {
+            Ok(_) => {
+                st.nt.insert(util::mix(util::hash_str(main), script.len() as u64 * 131 + util::hash_str(script[0].1)));
+            }
+            Err(util::Caught::Budget(_)) => st.bump("budget_exceeded(not judged)"),
+            Err(c) => st.violate("c12.inproc", format!("C12:{}", c.signature()), format!("`{}` with the definitions {:?} (made through the API, evaluated after each): {:?}", main, script, c), case),
+        }
+    }
+    st
+}
+
 fn cli_job(ctx: &Ctx, job: usize, iters: u64) -> Stats {
     let mut st = Stats::new();
     let mut rng = Rng::stream(ctx.seed, "C12.cli", job as u64);
@@ -599,6 +640,7 @@ pub fn run(ctx: &Ctx) -> (Stats, Spec) {
         let mut s = cli_job(ctx, job, cli_iters);
         s.merge(limit_job(ctx, job, 16));
         s.merge(name_length_job(ctx, job, 16));
+        s.merge(definitions_job(ctx, job, cli_iters));
         s
     });
     st.merge(crate::report::merge_all(parts));
